@@ -44,7 +44,7 @@ else:
     # one cargo target dir shared by ALL alternative trees (a copy per tree costs ~10 GB each);
     # cargo keys artifacts by package path, so trees do not clash; the produced binaries are
     # copied to WORKALT/bin right after the build because the next tree's build overwrites them
-    TARGET = os.path.join(WORK, "alt-target")
+    TARGET = os.environ.get("VERIF_ALT_TARGET") or os.path.join(WORK, "alt-target")
     EVID = os.path.join(WORKALT, "evidence")
     REPLAYS = os.path.join(WORKALT, "replays")
     LOCKS = WORKALT
@@ -112,8 +112,10 @@ def sh(cmd, timeout=None, cwd=None, env=None, inp=None):
 class FileLock:
     def __init__(self, name):
         ensure_dirs()
-        self.path = os.path.join(WORK if (ALT and name == "cargo") else LOCKS,
-                                 ("alt-" if (ALT and name == "cargo") else "") + name + ".lock")
+        if ALT and name == "cargo":
+            self.path = TARGET.rstrip("/") + ".lock"
+        else:
+            self.path = os.path.join(LOCKS, name + ".lock")
 
     def __enter__(self):
         self.f = open(self.path, "w")
